@@ -4,6 +4,7 @@ PROP = {'drive': ['Names'], 'modules': ['SfntV.Props.C14'],
  'required_theorems': ['C14_macroman_inverse',
                        'C14_macroman_injective',
                        'C14_macroman_scalar',
+                       'C14_macroman_decodeone',
                        'C14_utf16_roundtrip',
                        'C14_post_roundtrip',
                        'C14_language_tables_ok',
